@@ -29,8 +29,9 @@ def _standin(rep, tier, seed, only_search=False):
             # one dominant bar in one diagram only, next to bars that do match (clustered when k is odd)
             a, b1 = rng.uniform(4, 7), rng.uniform(9, 14)
             cl = (m - 1) if (k % 2 == 0) else 0
-            A = [[0.0, a]] + [[0.1 * i, a - 0.1 * i] for i in range(1, cl + 1)]
-            B = [[0.0, b1], [0.0, a - 1.0]] + [[0.1 * i, a - 0.1 * i - 0.05] for i in range(1, cl + 1)]
+            h = min(0.1, a / (4.0 * max(cl, 1)))          # spacing that keeps every clustered bar well above the diagonal for any m
+            A = [[0.0, a]] + [[h * i, a - h * i] for i in range(1, cl + 1)]
+            B = [[0.0, b1], [0.0, a - 1.0]] + [[h * i, a - h * i - h / 2] for i in range(1, cl + 1)]
             C = [[0.0, (a + b1) / 2]]
         else:
             A = [[float(i), float(i) + 3.0] for i in range(m)]
@@ -46,6 +47,9 @@ def _standin(rep, tier, seed, only_search=False):
         if it % 4 == 0:
             A, B, C = structured(it // 4)
             na, nb, nc = len(A), len(B), len(C)
+        if any(p[1] < p[0] for p in A + B + C):
+            rep.note("generator produced a point below the diagonal; case skipped (not a persistence diagram)")
+            continue
         for kind, fn in (("inf", "bottleneck"), ("2", "wasserstein")):
             d = _d(kind, A, B)
             mag = max([abs(x) for p in A + B + C for x in p] + [1.0])
